@@ -872,6 +872,13 @@ def handleOp (d : DState) (p : Pending) (res : List String) : DState := Id.run d
           match parseNat? (by_.drop 5).toString with
           | some id => (Reader.byItem cr s rd id q, Writer.itemLeaf cr s id)
           | none => (.error (.panic "bad id"), none)
+      -- C19: a query of the wrong length is refused whatever its other options are
+      if by_.startsWith "vec:" then
+        match parseVec? (by_.drop 4).toString with
+        | some vec =>
+          if vec.length != rd.dims && res.headD "" == "ok" then
+            d := d.prop "C19" s!"query by a vector of length {vec.length} answered ok by index {c.index} of dimension {rd.dims}"
+        | none => pure ()
       match model with
       | .error e => return cmp d (errStr e)
       | .ok none => return cmp d "ok none"
